@@ -15,7 +15,7 @@ BOUNDS = dict(quick='every listed public function once on a pool curve (5-6 poin
               thorough='three pool curves and two symbolic positions per function')
 ASSUMPTIONS = ['exact real arithmetic (T1)', 'memory layout and dtype are abstracted by the shim: layout/dtype independence is outside the claim',
                'linkage is decided only on the code paths the slices execute (plus module import), not by a static scan']
-CONFIG = dict(quick=dict(budget_s=175, case_wall_s=100, max_paths=3000, nra_at_decide=False), thorough=dict(budget_s=1750, case_wall_s=600, max_paths=50000, nra_at_decide=False))
+CONFIG = dict(quick=dict(budget_s=175, case_wall_s=100, max_paths=3000, nra_at_decide=False), thorough=dict(budget_s=900, case_wall_s=600, max_paths=50000, nra_at_decide=False))
 REPORT_KEYS = ['fn']
 
 
@@ -27,6 +27,7 @@ def _calls(L, h, pts, X, Y, n, t):
     knees = h.iarray([1, 2, n - 2] if n >= 5 else [1, 2])
     exp = h.array([[X[1], Y[1]], [X[n - 2], Y[n - 2] + 1]])
     removed = h.array([[0, 1], [2, n - 4]])
+    removed_rev = h.array([[2, n - 4], [0, 1]])      # rows in reverse order: only valid with sorted=False
     tl = [h.num(t / 2), h.num(t)]        # ascending on purpose: the function wants them in descending order
     yh = h.array([v + Fr(1, 4) for v in Y])
     cmx = h.array([[2, 1], [1, n - 4 if n > 4 else 1]])
@@ -37,6 +38,7 @@ def _calls(L, h, pts, X, Y, n, t):
         'rdp.mp_grdp': (lambda: rdp.mp_grdp(pts, h.num(t), 4), []),
         'rdp.min_point_rdp': (lambda: rdp.min_point_rdp(pts, tl, 4), [tl]),
         'rdp.mapping': (lambda: rdp.mapping(h.iarray([0, 2]), red, removed), [red, removed]),
+        'rdp.mapping(unsorted)': (lambda: rdp.mapping(h.iarray([0, 1, 2]), red, removed_rev, False), [red, removed_rev]),
         'rdp.compute_removed_points': (lambda: rdp.compute_removed_points(pts, red), [red]),
         'rdp.plot_frame': (lambda: rdp.plot_frame(pts, red, 0), []),
         'clustering.single_linkage': (lambda: cl.single_linkage(pts, h.num(t)), []),
